@@ -11,13 +11,16 @@ use serde_json::{json, Value};
 
 const N_LIMITS: u64 = 14;
 const N_POS: u64 = 4;
-const N_FRONT: u64 = 8;
+const N_FRONT: u64 = 11;
+/// 0: the limit is set right before the frame under test; 1: it is set on the new decoder, before the history
+const N_ORDER: u64 = 2;
 /// largest accepted window for which a path that reserves the window eagerly is executed
 const EAGER_CAP: u64 = 64 << 20;
 
-const FRONT_NAMES: [&str; 8] = [
+const FRONT_NAMES: [&str; 11] = [
     "front:reset", "front:init", "front:decode_all", "front:decode_all_to_vec", "front:decode_from_to",
     "front:StreamingDecoder::new", "front:new_with_max_window_size", "front:new_with_decoder",
+    "front:decode_all:second_frame_of_one_call", "front:decode_all_to_vec:second_frame_of_one_call", "front:decode_all:after_skippable_frame",
 ];
 const POS_NAMES: [&str; 4] = ["pos:first_use", "pos:after_completed", "pos:after_abandoned", "pos:after_failed"];
 
@@ -133,7 +136,8 @@ fn item(idx: u64, ctx: &mut CaseCtx, seed: u64) -> CaseResult {
     let front = idx % N_FRONT;
     let pos = (idx / N_FRONT) % N_POS;
     let lclass = (idx / N_FRONT / N_POS) % N_LIMITS;
-    let h = idx / N_FRONT / N_POS / N_LIMITS;
+    let order = (idx / N_FRONT / N_POS / N_LIMITS) % N_ORDER;
+    let h = idx / N_FRONT / N_POS / N_LIMITS / N_ORDER;
     let (frame, w, single) = header_variant(h, seed);
     let mut limit = limit_value(lclass, w, seed, idx);
     // fronts without a decoder handle: no history possible
@@ -147,15 +151,26 @@ fn item(idx: u64, ctx: &mut CaseCtx, seed: u64) -> CaseResult {
     let effective = limit.min(WINDOW_MAX);
     let should_accept = w <= effective;
     // paths that reserve the whole window eagerly (reuse) are only *executed* for moderate windows
-    let reuse = pos != 0;
+    let reuse = pos != 0 || front >= 8;
     if should_accept && reuse && w > EAGER_CAP {
         ctx.feat("excluded:accept_on_reuse_path_reserves_window");
         return Ok(());
     }
+    if order == 1 && (pos == 0 || front == 5 || front == 6) {
+        // without a history (or a decoder handle) the two orders are the same program
+        ctx.weight = 1;
+        return Ok(());
+    }
     let mut dec = FrameDecoder::new();
+    if order == 1 {
+        // the caller configures the decoder once; the limit has to survive every earlier frame
+        dec.set_max_window_size(limit);
+    }
     history(&mut dec, pos);
     if front != 5 && front != 6 {
-        dec.set_max_window_size(limit);
+        if order == 0 {
+            dec.set_max_window_size(limit);
+        }
         ensure!(dec.max_window_size() == effective, "limit_not_clamped", "set_max_window_size({limit}) -> max_window_size() = {}, expected {effective}", dec.max_window_size());
     }
     let meter = Meter::start();
@@ -181,7 +196,21 @@ fn item(idx: u64, ctx: &mut CaseCtx, seed: u64) -> CaseResult {
         }
         5 => classify(StreamingDecoder::new(&frame[..]).map(|_| ())),
         6 => classify(StreamingDecoder::new_with_max_window_size(&frame[..], limit).map(|_| ())),
-        _ => classify(StreamingDecoder::new_with_decoder(&frame[..], &mut dec).map(|_| ())),
+        7 => classify(StreamingDecoder::new_with_decoder(&frame[..], &mut dec).map(|_| ())),
+        8 | 9 | 10 => {
+            // multi-frame call: the frame under test is not the first thing in the input
+            // (the leading data frame has a 3-byte window itself: under a limit below that a skippable frame leads)
+            let mut input: Vec<u8> = if front == 10 || effective < 3 { vec![0x5A, 0x2A, 0x4D, 0x18, 2, 0, 0, 0, 7, 7] } else { SMALL_OK.to_vec() };
+            input.extend_from_slice(&frame);
+            if front == 9 {
+                let mut out = Vec::with_capacity(8);
+                classify(dec.decode_all_to_vec(&input, &mut out))
+            } else {
+                let mut out = [0u8; 8];
+                classify(dec.decode_all(&input, &mut out))
+            }
+        }
+        _ => unreachable!(),
     };
     let largest = meter.largest_request();
     match verdict {
@@ -199,6 +228,7 @@ fn item(idx: u64, ctx: &mut CaseCtx, seed: u64) -> CaseResult {
     }
     ctx.feat(FRONT_NAMES[front as usize]);
     ctx.feat(POS_NAMES[pos as usize]);
+    ctx.feat(if order == 1 { "limit:set_once_before_the_history" } else { "limit:set_right_before_the_frame" });
     ctx.feat(if should_accept { "verdict:accept" } else { "verdict:reject" });
     ctx.feat_if(single, "header:single_segment_fcs");
     ctx.nontrivial = (w as i128 - effective as i128).abs() <= 1 || reuse;
@@ -209,15 +239,15 @@ fn item(idx: u64, ctx: &mut CaseCtx, seed: u64) -> CaseResult {
 }
 
 pub fn run(eng: &Engine) {
-    eng.set_rule("complete product of header variant (all 256 window descriptors + single-segment content sizes in every field width) x 14 limit classes (w-1, w, w+1, 0, 1023, 1024, default+-1, format maximum+-1, u64::MAX, random) x 4 history positions x 8 front ends; oracle: accept iff window <= min(limit, format maximum); non-trivial = |window - effective limit| <= 1 or a reuse position; cases distinct by index");
+    eng.set_rule("complete product of header variant (all 256 window descriptors + single-segment content sizes in every field width) x 14 limit classes (w-1, w, w+1, 0, 1023, 1024, default+-1, format maximum+-1, u64::MAX, random) x 2 orders (limit set right before the frame / once on the new decoder, before the history) x 4 history positions x 11 front ends (reset, init, decode_all, decode_all_to_vec, decode_from_to, the three StreamingDecoder constructors, and the frame as second frame / after a skippable frame inside one multi-frame call); oracle: accept iff window <= min(limit, format maximum); non-trivial = |window - effective limit| <= 1 or a reuse position; cases distinct by index");
     eng.assume("acceptance on paths that reserve the whole window eagerly (reset of a used decoder) is executed only for windows <= 64 MiB; excluded (header, path) pairs are counted under features excluded:*; rejection is executed everywhere");
     eng.assume("the allocation clause is checked for windows >= 64 KiB (below that a window-sized request cannot be told from ordinary scratch)");
     let seed = eng.seed;
     let headers = 256 + fcs_values(seed).len() as u64;
-    let total = headers * N_LIMITS * N_POS * N_FRONT;
+    let total = headers * N_ORDER * N_LIMITS * N_POS * N_FRONT;
     eng.run_enumerated("window_limit_product", "header variant x limit class x position x front end", total, 512, move |i, c| item(i, c, seed));
     // single-segment sizes and random limits are sampled, the descriptor product is complete
-    eng.set_extra("exhaustive_note", json!("all 256 window descriptors x 13 fixed limit classes x 4 positions x 8 front ends enumerated completely; content-size values and the random limit class are sampled"));
+    eng.set_extra("exhaustive_note", json!("all 256 window descriptors x 13 fixed limit classes x 2 orders x 4 positions x 11 front ends enumerated completely; content-size values and the random limit class are sampled"));
 }
 
 pub fn replay(eng: &Engine, stage: &str, case: &Value) -> CaseResult {
